@@ -288,8 +288,9 @@ CLAIMS['C03'] = dict(
 CLAIMS['C04'] = dict(
     category='proof',
     text='The clause "extended by the largest future-trigger offset among pooled tasks and capped at the stop '
-         'point": (1) the last statements of TaskPool.compute_runahead (from `pre_adj_limit = limit_point` to '
-         '`return True`, taken mechanically from the real FunctionDef) are verified as a FRAGMENT for an '
+         'point": (1) the last statements of TaskPool.compute_runahead (every top-level statement after the '
+         'if/elif/else that picks the un-adjusted limit out of sorted(sequence_points), down to `return True`, '
+         'taken mechanically from the real FunctionDef) are verified as a FRAGMENT for an '
          'arbitrary un-adjusted limit: the limit stored is min(limit + max_future_offset if any, stop point if '
          'any), in particular never beyond the stop point; (2) TaskPool.set_max_future_offset is verified whole '
          'against its body (loop invariant over the pool list): the offset stored is the largest '
@@ -364,6 +365,71 @@ _bounded('C48', 'c48_bounded',
          'numbered run that still exists (and exists after every numbered install), and no number is handed out '
          'twice - one known finding: the number of a cleaned highest run is reused.',
          'File-system code (glob, readlink, rsync subprocess). Reinstall is not exercised.')
+
+_bounded('C21', 'c21_bounded',
+         'On the real CylcWorkflowDAO / WorkflowDatabaseManager with real SQLite files: for batches of <= 3 '
+         'insert / update / delete operations over three tables and a sqlite3.Error injected at every statement '
+         'position and at commit, the error propagates from the private write and the private database content '
+         'afterwards equals the content before the batch; a failed public write does not raise, keeps the batch '
+         'queued and counts the attempt; after the next successful write - or recover_pub_from_pri at the '
+         'threshold - the public content equals the private content and the queues are empty.',
+         'SQLite transaction semantics (close without commit = rollback) are SQLite\'s. A process crash in the '
+         'middle of a transaction is not simulated (C20 is not applicable).')
+_bounded('C22', 'c22_bounded',
+         'On the real BroadcastMgr with the real WorkflowDatabaseManager and SQLite: for 150 (quick) seeded '
+         'histories of put / clear (by point, namespace, setting) / expire operations over 3 points x 3 namespaces '
+         'x 6 single-leaf settings, after every operation the stored state equals an independent model (clear and '
+         'expire remove exactly the targets; expire never touches all-cycle broadcasts), get_broadcast for three '
+         'task instances equals the merge in precedence order (all-cycle root..task, then own-cycle root..task), '
+         'and at the end a fresh manager loaded from the database has the identical state.',
+         'Settings with several leaves in one dict are outside put_broadcast\'s domain (clients send one leaf per '
+         'dict; get_broadcast_change_iter records only the first leaf). Seeded sampling (VERIF_SEED).')
+_bounded('C33', 'c33_bounded',
+         'On the real XtriggerManager (real collator and SubFuncContext, recording process pool, virtual clock): '
+         'for every sequence of <= 5 events starting with a call, over call_xtriggers_async for one of three tasks '
+         '(two labels sharing a function signature, one task-specific), clock advances below / above the 10 s '
+         'interval, completion of the oldest call in progress (success or not) and housekeeping (14 043 sequences): '
+         'never two calls of one signature in progress, consecutive calls >= the interval apart, no call after '
+         'success while the result is remembered, and a task depending on a succeeded signature is satisfied the '
+         'next time it is looked at.',
+         'The wall-clock branch and broadcast of results are not exercised.')
+_bounded('C41', 'c41_bounded',
+         'The script text written by the real JobFileWriter._write_runtime_environment is evaluated by /bin/bash: '
+         'for every value of <= 3 characters over 20 ordinary and shell-special characters (blanks, newline, '
+         'quote, glob, redirection, grouping, history, %; none of $ ` \\ " and no leading ~) - 8000 values - the '
+         'exported variable equals the value exactly; and A=1, B=$A/2, C=${B}-$A evaluate in configuration order.',
+         'Parameter-template interpolation (%(x)s) and the tilde forms are not exercised.')
+_bounded('C44', 'c44_bounded',
+         'For 8 umasks (000 ... 277): after the real WorkflowDatabaseManager.on_workflow_start (first start, and '
+         'restart over an existing world-readable database) the private database has no group/other permission '
+         'bit; after the real create_server_keys the server and client private keys have none and the process '
+         'umask is restored.',
+         'Not a proof about the window between file creation and chmod ("once start-up completes" is what the '
+         'property says). 24 cases: a sample of umasks, not exhaustive over all 512.')
+
+_bounded('C12', 'c12_bounded',
+         'For every and/or completion expression with <= 3 (quick; 4 thorough) distinct leaves from {succeeded, '
+         'failed, x, y, expired, submit_failed} - all tree shapes, all leaf assignments - the real '
+         'get_optional_outputs classifies each output required exactly when an independent tree evaluator finds '
+         'the expression false with only that output (and expired, submit-failed) missing, optional when referenced '
+         'and not required, None when unreferenced; TaskOutputs.iter_required_messages yields exactly the required '
+         'messages; and the default skip-mode outputs contain submitted, started, every required output of the '
+         'success branch and exactly one of succeeded / failed.',
+         'The classification runs the restricted evaluator on expression strings (no token-tree model was built). '
+         'WorkflowConfig._check_completion_expression (consistency of a user expression with the graph) is NOT '
+         'covered.')
+_bounded('C17', 'c17_bounded',
+         'For 44 recurrence templates (all documented formats, truncated and relative points, exclusion points and '
+         'exclusion sequences) x 2 context windows (one across the end of February) x 4 calendar modes x 3 time '
+         'zones (7 of the 12 mode pairs in the quick tier): is_valid, get_next_point, get_prev_point, '
+         'get_nearest_prev_point, get_first_point at ~45 probe points on, between and around the points, and '
+         'get_start_point / get_stop_point, all agree with the list obtained by iterating the library recurrence '
+         'over the window and removing the excluded points; a fresh object asked in reversed and shuffled orders, '
+         'and the same object asked twice, give the same answers. The get_stop_point defect this check found '
+         '(several trailing excluded points; everything excluded) was repaired (fix: in known_findings.json).',
+         'The recurrence arithmetic is metomi.isodatetime (third party), which also serves as the enumeration '
+         'oracle: the check decides consistency of Cylc\'s wrappers and caches with it, not the calendar '
+         'arithmetic. Recurrences Cylc rejects are skipped (counted in coverage.rule). Seeded shuffles (VERIF_SEED).')
 
 NOT_APPLICABLE = {
     'C01': 'equality between the set of instances submitted over a whole run and the spawn-on-demand closure, for '
